@@ -691,6 +691,59 @@ def _calibration_monitors(res, rng, n_default, n_generic, viol):
                 viol("calibrated value outside the admissible interval", **rep)
             if not abs(got - market) <= tol:
                 viol("model with the calibrated value does not reprice the target product", **rep)
+        # intervals reaching values the model REFUSES (a parameter constraint, or the E[exp(L_1)] guards of the exponential models), with
+        # targets above / below / inside the attainable range.  The model (C20_calibration_spec_partial, second clause: a refused trial
+        # value makes the calibration an error; brentq evaluates both ends first) says: the calibration raises.  The implementation must
+        # raise ValueError -- never return the edge of the domain as a "root".
+        refused = [(ModelType.CGMY, "m", (0.5, 20.0), dict(c=1.0, g=15.0, m=20.0, y=0.5)),
+                   (ModelType.CGMY, "c", (-1.0, 5.0), dict(c=1.0, g=15.0, m=20.0, y=0.5)),
+                   (ModelType.CGMY, "y", (0.5, 2.5), dict(c=1.0, g=15.0, m=20.0, y=0.5)),
+                   (ModelType.HEM, "eta1", (0.5, 30.0), dict(sigma=0.05, p=0.6, eta1=20.0, eta2=25.0, intensity=3.0)),
+                   (ModelType.HEM, "p", (0.2, 1.5), dict(sigma=0.05, p=0.6, eta1=20.0, eta2=25.0, intensity=3.0)),
+                   (ModelType.HEM, "intensity", (-1.0, 10.0), dict(sigma=0.05, p=0.6, eta1=20.0, eta2=25.0, intensity=3.0)),
+                   (ModelType.MERTON, "mu_j", (-0.5, 1.0), dict(sigma=0.05, sigma_j=0.05, mu_j=0.03, intensity=3.0)),
+                   (ModelType.MERTON, "sigma_j", (-0.2, 1.0), dict(sigma=0.05, sigma_j=0.05, mu_j=0.03, intensity=3.0)),
+                   (ModelType.VG, "sigma", (-0.5, 1.0), dict(sigma=0.1, nu=0.06, theta=0.1))]
+        for mt, par, (a, b), kw in refused:
+            for target in (70.0, 1.0, None):          # above every attainable price / below / attainable inside the domain
+                T = rng.choice([0.5, 1.0])
+                model = U_.helper_model(mt)(spot=100.0, r=0.02, d=0.0, **kw)
+                product = call_product(100.0, T)
+                market = target if target is not None else bs_price(model, 100.0, T, 0.2)
+                ends = []
+                for v in (a, b):
+                    try:
+                        U_.helper_model(mt)(spot=100.0, r=0.02, d=0.0, **dict(kw, **{par: v}))
+                        ends.append("accepted")
+                    except ValueError:
+                        ends.append("refused")
+                    except Exception as e:  # noqa
+                        ends.append(type(e).__name__)
+                rep = dict(kind="calibrate_model_parameter", model=mt.name, params=dict(spot=100.0, r=0.02, d=0.0, **kw), parameter=par,
+                           interval=[a, b], maturity=T, strike=100.0, payoff="CALL", bs_sigma=0.2, market_price=market,
+                           ends="refused end", end_values=ends)
+                res.count(("refused interval", mt.name, par, target), kind="calibrate_model_parameter interval reaching refused values")
+                if "refused" not in ends:
+                    res.broke("calibration monitors", f"harness: neither end of {par} in [{a},{b}] is refused by {mt.name}")
+                    continue
+                snap = snapshot(model)
+                out = attempt(lambda: U_.calibrate_model_parameter(model, par, (a, b), product, market))
+                res.bump("calibration_outcome", f"{mt.name}.{par}: refused end -> {out[0]}")
+                if out[0] == "value":
+                    x = float(out[1])
+                    try:
+                        params = copy.deepcopy(model.levy_model.parameters)
+                        setattr(params, par, x)
+                        params.initialisation()
+                        got = float(np.squeeze(COSPricer(type(model)(spot=100.0, r=0.02, d=0.0, parameters=params)).price(product)))
+                    except Exception as e:  # noqa
+                        got = f"{type(e).__name__}: {e}"
+                    viol("calibration returns a value although an end of the interval is refused by the model (the objective cannot be "
+                         "evaluated there: it must raise)", calibrated=x, cos_price=got, **rep)
+                elif out[0] == "other" or "cannot be calibrated" not in str(out[1]):
+                    viol(f"calibration over an interval reaching refused values raises {str(out[1])[:60]} instead of ValueError('...cannot be calibrated...')", **rep)
+                if snapshot(model) != snap:
+                    viol("calibrate_model_parameter modified its input model", **rep)
         # intervals whose end is a value where the re-initialisation divides by zero: the calibration must raise (ZeroDivisionError
         # propagates out of brentq; the model: assign_init = None), never return
         for mt, par, (a, b), kw in [(ModelType.VG, "sigma", (0.0, 1.0), dict(sigma=0.1, nu=0.06, theta=0.1)),
@@ -856,7 +909,7 @@ def replay(path):
                 params.initialisation()
                 got = float(np.squeeze(COSPricer(type(model)(spot=model.spot, r=model.r, d=model.d, parameters=params)).price(product)))
                 print("calibrated value", x, "COS price", got, "market", data["market_price"], "| ends:", data.get("ends"))
-                if data.get("ends") == "no sign change":
+                if data.get("ends") in ("no sign change", "refused end"):
                     return 1
                 return 0 if abs(got - data["market_price"]) <= data.get("tol", CAL_TOL) and data["interval"][0] <= x <= data["interval"][1] else 1
             except ValueError as e:
